@@ -469,6 +469,8 @@ class Compiler:
                         out.add(self.root(t))
                 elif isinstance(n, ast.Expr) and isinstance(n.value, ast.Call) and isinstance(n.value.func, ast.Attribute):
                     out.add(self.root(n.value.func.value))
+                elif isinstance(n, ast.Expr) and isinstance(n.value, ast.Yield):
+                    out.add("yielded")
                 elif isinstance(n, ast.For):
                     for x in ast.walk(n.target):
                         if isinstance(x, ast.Name):
@@ -548,6 +550,11 @@ class Compiler:
             return self.blk(rest, env2, final, in_loop)
         if s == SKIP_LITERAL:
             return go(env)
+        if isinstance(st, ast.Expr) and isinstance(st.value, ast.Yield) and self.getter is not None and self.yields:
+            if st.value.value is None:
+                raise Refuse("a bare yield")
+            vt, vk = self.ex(st.value.value, env)
+            return f"let yielded := (yielded ++ [{vt}]) in\n  {go(env)}"
         if isinstance(st, ast.Return) and self.getter is not None:
             if st.value is None or in_loop:
                 raise Refuse(f"`{s}` in a method that returns a value")
@@ -739,8 +746,11 @@ class Compiler:
         return Env(kinds, facts, {n: s for n, s in before.alias.items()}, stale | before.stale, before.iters, fresh, inited)
 
     getter = None
+    yields = False
 
     def fn_final(self, env):
+        if self.getter is not None and self.yields:
+            return "yielded"          # a generator function: what it yields, in order (the consumer is assumed to exhaust it)
         if self.getter is not None:
             raise Refuse("control falls off the end of a method that returns a value")
         return self._fn_final(env)
@@ -774,7 +784,16 @@ class Compiler:
             env = Env(kinds, inited=frozenset())
         else:
             env = Env(kinds)
+        self.yields = bool(getter) and any(isinstance(n, ast.Yield) for x in fn.body for n in ast.walk(x))
+        if self.yields:
+            if any(isinstance(n, ast.Return) for x in fn.body for n in ast.walk(x)):
+                raise Refuse(f"`{name}`: a generator function with a return")
+            env.kinds["yielded"] = L(UNK)
+            env = env.copy(fresh=env.fresh | {"yielded"})
         body = self.blk(list(fn.body), env, self.fn_final)
+        if self.yields:
+            body = "let yielded := [] in\n  " + body
+            self.yields = False
         ps = "".join(f" ({n} : {t})" for n, t in params)
         if getter:
             self.getter = None
